@@ -199,3 +199,80 @@ macro_rules! c13_num_spelling {
 }
 c13_num_spelling!(c13_num_spelling_vs_int, g_iint, 3);
 c13_num_spelling!(c13_num_spelling_vs_float, g_float, 3);
+
+// ---------------------------------------------------------------------------
+// C15: the comparison kernels give the same answers over serde_json::Value as
+// over the second Queryable implementation (Mini) for equal scalar content.
+use serde_json::Value;
+fn v_state<'a>(root: &'a Value, v: &'a Value, as_value: bool) -> State<'a, Value> {
+    if as_value {
+        State::data(root, Data::Value(v.clone()))
+    } else {
+        State::data(root, Data::Ref(Pointer::new(v, String::from("p"))))
+    }
+}
+macro_rules! c15_scalar {
+    ($name:ident, $unwind:expr, |$a:ident, $b:ident| $gen:block) => {
+        proof!($name, $unwind, {
+            let rootm = Mini::Null;
+            let rootv = Value::Null;
+            let ($a, $b): ((Mini, Value), (Mini, Value)) = $gen;
+            let (ma, mb) = (Some($a.0), Some($b.0));
+            let (va, vb) = (core::mem::ManuallyDrop::new($a.1), core::mem::ManuallyDrop::new($b.1));
+            let e_m = eq(operand(&rootm, &ma, true), operand(&rootm, &mb, false));
+            let l_m = lt(operand(&rootm, &ma, true), operand(&rootm, &mb, false));
+            let g_m = lt(operand(&rootm, &mb, false), operand(&rootm, &ma, true));
+            let e_v = eq(v_state(&rootv, &va, true), v_state(&rootv, &vb, false));
+            let l_v = lt(v_state(&rootv, &va, true), v_state(&rootv, &vb, false));
+            let g_v = lt(v_state(&rootv, &vb, false), v_state(&rootv, &va, true));
+            assert!(e_m == e_v, "== differs between serde_json::Value and another faithful Queryable");
+            assert!(l_m == l_v, "< differs between serde_json::Value and another faithful Queryable");
+            assert!(g_m == g_v, "> differs between serde_json::Value and another faithful Queryable");
+            kani::cover!(e_v, "equal");
+            kani::cover!(l_v, "less");
+        });
+    };
+}
+fn vnum_i(i: i64) -> Value {
+    Value::Number(serde_json::Number::from(i))
+}
+fn vnum_f(f: f64) -> Value {
+    let n = serde_json::Number::from_f64(f);
+    kani::assume(n.is_some()); // f is finite
+    Value::Number(n.unwrap())
+}
+c15_scalar!(c15_scalar_int_int, 3, |a, b| {
+    let (x, y): (i64, i64) = (kani::any(), kani::any());
+    ((Mini::Int(x), vnum_i(x)), (Mini::Int(y), vnum_i(y)))
+});
+c15_scalar!(c15_scalar_float_float, 3, |a, b| {
+    let (x, y) = (any_finite_f64(), any_finite_f64());
+    ((Mini::Float(x), vnum_f(x)), (Mini::Float(y), vnum_f(y)))
+});
+c15_scalar!(c15_scalar_int_float, 3, |a, b| {
+    let (x, y) = (any_ijson(), any_finite_f64());
+    ((Mini::Int(x), vnum_i(x)), (Mini::Float(y), vnum_f(y)))
+});
+c15_scalar!(c15_scalar_bool_null, 3, |a, b| {
+    let x: bool = kani::any();
+    ((Mini::Bool(x), Value::Bool(x)), (Mini::Null, Value::Null))
+});
+c15_scalar!(c15_scalar_bool_bool, 3, |a, b| {
+    let (x, y): (bool, bool) = (kani::any(), kani::any());
+    ((Mini::Bool(x), Value::Bool(x)), (Mini::Bool(y), Value::Bool(y)))
+});
+c15_scalar!(c15_scalar_str_str, 6, |a, b| {
+    let mut b1 = [0u8; 4];
+    let mut b2 = [0u8; 4];
+    sym_scalar(&mut b1, 0, 1);
+    sym_scalar(&mut b2, 0, 2);
+    let (s1, s2) = (str_over(leak(b1), 1), str_over(leak(b2), 2));
+    ((Mini::Str(s1), Value::String(String::from(s1))), (Mini::Str(s2), Value::String(String::from(s2))))
+});
+c15_scalar!(c15_scalar_str_int, 6, |a, b| {
+    let mut b1 = [0u8; 4];
+    sym_scalar(&mut b1, 0, 1);
+    let s1 = str_over(leak(b1), 1);
+    let y: i64 = kani::any();
+    ((Mini::Str(s1), Value::String(String::from(s1))), (Mini::Int(y), vnum_i(y)))
+});
